@@ -62,7 +62,6 @@ type WSystem struct {
 	Vlans    []int
 	Sets     []int // states given to SetSubscriberState
 	Advs     []int // time steps in minutes
-	MaxDepth int
 	RaceN    int // rounds of a "race" step (two calls on one MAC at once)
 }
 
@@ -98,7 +97,7 @@ func (s *WSystem) Config() map[string]any {
 	if i := strings.IndexByte(impl, '#'); i >= 0 {
 		impl = impl[:i]
 	}
-	return map[string]any{"impl": impl, "nm": s.NM, "maps": s.Maps, "T": s.T, "cap": s.T + 3, "full": s.Full, "order": s.Order,
+	return map[string]any{"kind": "wg", "impl": impl, "nm": s.NM, "maps": s.Maps, "T": s.T, "cap": s.T + 3, "full": s.Full, "order": s.Order,
 		"dns": s.DNS, "portal": s.Portal, "custom": s.Custom, "ops": s.Ops, "vlans": s.Vlans, "sets": s.Sets, "advs": s.Advs, "nsubs": 0,
 		"racen": s.RaceN}
 }
